@@ -100,6 +100,10 @@ def gen_scenario(r, sid):
     xps = {"f%d" % f: r.choice(XPS) for f in range(nfun)}
     for t in trigs:
         t["xp"] = xps[t["fid"]]
+    # some functions also carry a @state_trigger whose state_hold is pending during the whole scenario (it never
+    # expires within the horizon): messages must be served as if it were not there
+    hr2 = random.Random(r.random())
+    holds = sorted("f%d" % f for f in range(nfun) if hr2.random() < 0.4)
     n = 0
     bursts = []
     for _ in range(r.randint(2, 5)):
@@ -116,7 +120,7 @@ def gen_scenario(r, sid):
                     del d[fld]
             msgs.append({"kind": kind, "key": key, "d": d})
         bursts.append({"msgs": msgs, "gap": r.choice([0, 1, 3, 10])})
-    return {"sid": sid, "trigs": trigs, "bursts": bursts}
+    return {"sid": sid, "trigs": trigs, "bursts": bursts, "holds": holds}
 
 
 def source(scn):
@@ -133,6 +137,8 @@ def source(scn):
                 args.append(repr(fs))
             args.append("kwargs=%r" % t["kw"])
             out.append("@%s_trigger(%s)" % (t["kind"], ", ".join(args)))
+        if fid in scn.get("holds", []):
+            out.append("@state_trigger(\"pyscript.hold_%s == '1'\", state_hold=100000, kwargs={'dec': 'sh'})" % fid)
         xp = [t for t in scn["trigs"] if t["fid"] == fid][0].get("xp", "-")
         xp_src = "" if xp == "-" else ", %s='X'" % xp
         out.append(
@@ -216,6 +222,9 @@ def run_case(scn, legacy):
                               "parent": ev.context.parent_id or "-", "cid": ev.context.id, "data": {}})
         hass.bus.async_listen("out", on_out)
         hass.bus.async_listen("state_changed", on_state)
+        for fid in scn.get("holds", []):
+            hass.states.async_set("pyscript.hold_" + fid, "1")          # the hold starts now and stays pending
+        await w.settle()
         w.take()
         for b in scn["bursts"]:
             msgs = []
